@@ -52,6 +52,10 @@ WINDOW_TEMPLATES = {
     "timed-recv-disc":    ("0",  ["drop s;recvt 300", "drop s"]),
     "timed-recv-peer":    ("0",  ["recvt 300", "send 31"]),
     "timed-recv-try":     ("1",  ["recvt 300", "try 31 0 0;try 32 0 0"]),
+    # the deadline passes while another thread is stalled inside a critical section (holds the channel lock)
+    "timed-send-holder":  ("0",  ["sendt 1 300", "len s;isfull s;len s"]),
+    "timed-sendo-holder": ("0",  ["sendot 1 300", "len s;scount r;len s"]),
+    "timed-recv-holder":  ("0",  ["recvt 300", "len r;isclosed s;len r"]),
     # a pending future ahead of a timed sender: close / last-receiver drop has work to do under the lock
     "slow-close":         ("0",  ["asend 0 1;polls 0 1", "sendt 31 300", "close s"]),
     "slow-disc":          ("0",  ["drop r;asend 0 1;polls 0 1", "drop r;sendot 31 300", "drop r"]),
@@ -188,7 +192,8 @@ class Run:
                 p = ln.split(" ")
                 if p[0] == "-":
                     if p[1] in ("end", "stuck", "diverged"):
-                        self.end = ln
+                        # a stuck run prints `- stuck t…` and then `- end …`: remember both
+                        self.end = (self.end + " | " + ln) if self.end and p[1] == "end" and " stuck" in self.end else ln
                     self.events.append(("-", p[1], p[2:]))
                 else:
                     self.events.append((p[0], p[1], p[2:]))
@@ -501,6 +506,11 @@ def mon_stuck(run, cap):
     bad = []
     if other:
         bad.append(f"stuck inside a call that never waits for a peer: {[o['op'] for o in other]}")
+    timed = [o for o in blocked if o["op"].split(" ")[0] in ("sendt", "sendot", "recvt")]
+    if timed:
+        # the virtual clock advances whenever every runnable thread only waits, and a peer that claimed a waiter always finishes:
+        # a timed call can therefore not remain blocked for ever (C13: Timeout is reported once the deadline has passed)
+        bad.append(f"timed operation never returned ({timed[0]['tid']} {timed[0]['op']}): no Timeout after its deadline")
     if bs and br:
         bad.append(f"a sender ({bs[0]['tid']} {bs[0]['op']}) and a receiver ({br[0]['tid']} {br[0]['op']}) are both blocked for ever")
     closed = any(o["op"].startswith("close") and (o["res"] or "").startswith("ok") for o in ops)
@@ -521,9 +531,17 @@ def mon_stuck(run, cap):
     got = set(v for o in ops if o["ret"] is not None for v in received_values(o))
     dropped = set(int(a[0]) for (_, k, a) in run.events if k == "pdrop")
     buffered = succ - got - dropped
+    # the value-based rules need to know where every accepted value is: not so with zero-sized payloads (no tag) or when
+    # futures exist (a value may sit in a receive future nobody polls again; a pending send future holds a place in the list)
+    hdr = getattr(run, "header", "") or ""
+    precise = "class=z" not in hdr and not any(o["op"].split(" ")[0] in ("asend", "arecv", "stream") for o in ops)
+    if not precise:
+        buffered, bs_rule = set(), False
+    else:
+        bs_rule = True
     if br and buffered:
         bad.append(f"receiver blocked for ever although values {sorted(buffered)} were accepted and never delivered")
-    if bs and cap != "u" and len(buffered) < int(cap):
+    if bs and bs_rule and cap != "u" and len(buffered) < int(cap):
         bad.append(f"sender blocked for ever although only {len(buffered)} of {cap} buffer places are used")
     if bs and cap == "u":
         bad.append("sender blocked on an unbounded channel")
@@ -819,7 +837,7 @@ def run_profile(profile, seed, monitors, oracles, stats, workers=16):
             stats["conc_kinds"].update(kinds)
             if nontriv:
                 stats["conc_nontrivial"].add(sig)
-            stats["conc_ends"][run.end.split(" ")[1] if run.end else "none"] += 1
+            stats["conc_ends"][("stuck" if " stuck" in run.end else run.end.split(" ")[1]) if run.end else "none"] += 1
             if getattr(run, "follow", None):
                 stats["follow_steps"] = stats.get("follow_steps", 0) + run.follow[0]
                 stats["follow_calls"] = stats.get("follow_calls", 0) + run.follow[1]
